@@ -55,6 +55,13 @@ def check_sat(formula, assumptions=(), timeout_s=60, want_model=True, use_cvc5=T
     if z3.is_false(formula):
         return Result("unsat", tactic="syntactic", secs=0.0)
     notes = []
+    if kind == "divconst" and os.path.exists(CVC5):
+        # division / multiplication by constants: integer encoding keeping the mod-2^k semantics
+        r = cvc5_check(formula, assumptions, min(60, timeout_s), extra_args=["--solve-bv-as-int=sum"])
+        if r == "unsat":
+            return Result("unsat", tactic="cvc5-bv-as-int", secs=time.time() - t0)
+        notes.append("cvc5-bv-as-int: %s" % r)
+        kind = "mixed"
     tl = _tactics(kind)
     if tactics is not None:
         tl = [t for t in tl if t[0] in tactics]
